@@ -351,7 +351,7 @@ def explore(S, K, want=('C04', 'C05', 'C06')):
 
     seen_styles = set()
     for site, sfields in styles:
-        key = repr(sorted(sfields.items(), key=lambda kv: kv[0])) + site
+        key = repr(sorted(sfields.items(), key=lambda kv: kv[0]))
         if key in seen_styles:
             continue
         seen_styles.add(key)
@@ -381,7 +381,7 @@ def show_atoms(at):
 
 # -- native confirmation over a corpus of real list constructs with comments --------------------------------
 
-def corpus():
+def corpus(nl='\n'):
     ctxs = [
         ('args', '#f(%s)\n'), ('array', '#(%s)\n'), ('dict', '#(k: %s)\n'), ('params', '#let f(%s) = 1\n'), ('destruct', '#let (%s) = x\n'),
         ('import', '#import "m.typ": %s\n'), ('inline-eq', 'a $%s$ b\n'), ('block-eq', '$ %s $\n'), ('inline-args', 'text #f(%s) more\n'),
@@ -391,46 +391,93 @@ def corpus():
               'x,// c\n', 'x /* a */ // c\n', '// c\n', '/* c */']
     for cname, tpl in ctxs:
         for b in bodies:
-            yield cname, tpl % b
+            yield cname, tpl % b.replace('\n', nl)
+    if nl != '\n':
+        for src in ('// c%sa\n', '#let x = 1 // c%s#let y = 2\n', '#{%s  let a = 1 // c%s  let b = 2%s}\n', '$ x // c%s y $\n', '#f(1, // c%s 2)\n'):
+            yield 'non-LF-newline', src.replace('%s', nl)
 
 
-def native_sweep(S, prop):
-    """search the corpus for a source whose formatted output is erroneous (C04) or loses/reorders comments (C06)"""
-    for cname, src in corpus():
+SITE_CONTEXTS = {
+    'convert_params': ('closure', 'params'), 'convert_equation': ('inline-eq', 'block-eq'), 'convert_array': ('array', 'math-args'),
+    'convert_import_items': ('import',), 'convert_destructuring': ('destruct',), 'convert_dict': ('dict',), 'convert_code_block': (),
+    'convert_parenthesized_args': ('args', 'inline-args', 'strong-args', 'math-args'), 'convert_parenthesized_impl': (),
+}
+
+
+def native_sweep(S, prop, all_hits=False, nl='\n'):
+    """search the corpus for sources whose formatted output is erroneous (C04) or loses/reorders comments (C06)"""
+    hits = []
+    for cname, src in corpus(nl):
         e = S.driver.call('erroneous', hexs(src))
         if e[0] != 'ok' or e[1] == '1':
             continue
         for width in (80, 0):
             r = S.driver.call('format', hexs(src), width, 2, 0)
+            w = None
             if r[0] in ('panic', 'abort'):
-                return dict(api='Typstyle::format_content', source=src, width=width, what='panic on %s' % show(src))
-            if r[0] != 'ok':
-                continue
-            out = unhexs(r[1])
-            if prop == 'C04':
-                if S.driver.call('erroneous', r[1])[1] == '1':
-                    return dict(api='Typstyle::format_content', source=src, width=width, output=out,
-                                what='well-formed %s (%s) is formatted to text with syntax errors: %s' % (show(src), cname, show(out)))
-            if prop == 'C06':
-                a = S.driver.call('comments', hexs(src))
-                b = S.driver.call('comments', r[1])
-                if a[0] == 'ok' and b[0] == 'ok' and a[1:] != b[1:]:
-                    return dict(api='Typstyle::format_content', source=src, width=width, output=out,
-                                what='comments of %s (%s) changed: %r -> %r in %s' % (show(src), cname, [unhexs(x) for x in a[1:]], [unhexs(x) for x in b[1:]], show(out)))
-    return None
+                w = dict(api='Typstyle::format_content', context=cname, source=src, width=width, what='panic on %s' % show(src))
+            elif r[0] == 'ok':
+                out = unhexs(r[1])
+                if prop == 'C04' and S.driver.call('erroneous', r[1])[1] == '1':
+                    w = dict(api='Typstyle::format_content', context=cname, source=src, width=width, output=out,
+                             what='well-formed %s (%s, width %d) is formatted to text with syntax errors: %s' % (show(src), cname, width, show(out)))
+                if prop == 'C06':
+                    a = S.driver.call('comments', hexs(src))
+                    b = S.driver.call('comments', r[1])
+                    if a[0] == 'ok' and b[0] == 'ok' and a[1:] != b[1:]:
+                        w = dict(api='Typstyle::format_content', context=cname, source=src, width=width, output=out,
+                                 what='comments of %s (%s) changed: %r -> %r in %s' % (show(src), cname, [unhexs(x) for x in a[1:]], [unhexs(x) for x in b[1:]], show(out)))
+            if w:
+                if not all_hits:
+                    return w
+                hits.append(w)
+                break
+    return hits if all_hits else None
 
 
 def report(S, prop, found):
     labs = sorted({lab for lab, info in found if lab.startswith(prop + ':')})
     if not labs:
         return
-    w = native_sweep(S, prop)
+    hits = native_sweep(S, prop, all_hits=True)
     for lab in labs:
-        info = [i for l, i in found if l == lab][0]
-        if w:
-            S.violation(lab, '%s: %s' % (lab, w['what']), dict(api=w, model=info))
+        infos = [i for l, i in found if l == lab]
+        chosen = None
+        # models that hinge on a newline character other than LF are confirmed on the corpus rewritten with that character
+        for info in infos[:3]:
+            nls = [v[0] for v in (info.get('spaces') or {}).values() if v and ord(v[0]) in NEWLINES and v[0] != '\n' and '\n' not in v]
+            if nls:
+                h2 = native_sweep(S, prop, all_hits=True, nl=nls[0])
+                h2 = [h for h in h2 if h['source'] not in {x['source'] for x in hits}]
+                if h2:
+                    chosen = (info, h2[0])
+                    lab_key = lab + ':non-LF-newline'
+                    S.violation(lab_key, '%s: %s' % (lab_key, h2[0]['what']), dict(api=h2[0], model=info))
+                    break
+        if chosen:
+            continue
+        for info in infos:
+            ctxs = SITE_CONTEXTS.get(info.get('site'), ())
+            want_line = 'line' in info.get('children', [])
+            for h in hits:
+                if h['context'] in ctxs and (('//' in h['source']) == want_line):
+                    chosen = (info, h)
+                    break
+            if chosen:
+                break
+        if not chosen:
+            for info in infos:
+                want_line = 'line' in info.get('children', [])
+                for h in hits:
+                    if ('//' in h['source']) == want_line:
+                        chosen = (info, h)
+                        break
+                if chosen:
+                    break
+        if chosen:
+            S.violation(lab, '%s: %s' % (lab, chosen[1]['what']), dict(api=chosen[1], model=chosen[0]))
         else:
-            S.inconclusive.append('%s: the solver model (%r) has no reproduction in the native corpus' % (lab, info))
+            S.inconclusive.append('%s: the solver model (%r) has no reproduction in the native corpus' % (lab, infos[0]))
 
 
 ASSUMPTIONS = [
